@@ -18,6 +18,7 @@ type Program struct {
 	Families []string // harness families to emit: rt from echo refresh corrupt ni custom
 	Note     string
 	Support  string // extra support source appended to support.go
+	Bounds   map[string][2]int // per family: {KL, KM} caps (stated in evidence)
 }
 
 func leafMsg() *M  { return msg("Leaf", nil, fld("Str", TString), fld("Num", TInt64)) }
@@ -101,10 +102,18 @@ func programs() []*Program {
 		File: func() *FileSpec {
 			n1 := msg("N1", nil, mfld("N", "Inner").nonnull(), mfld("NP", "Inner"), fld("lower_snake_name", TString), mfld("lower_msg", "Leaf"))
 			n2 := msg("N2", nil, mfld("NL", "Inner").nonnull().rep(), mfld("NLP", "Inner").rep())
-			n3 := msg("N3", nil, mapfld("NM", mfld("v", "Inner").nonnull()), mapfld("NMP", mfld("v", "Inner")), mapfld("lower_map", fld("v", TString)))
-			return &FileSpec{Name: "p.proto", Msgs: []*M{leafMsg(), innerMsg(), n1, n2, n3}}
+			return &FileSpec{Name: "p.proto", Msgs: []*M{leafMsg(), innerMsg(), n1, n2}}
 		},
-		Cfg: func() *Config { return baseConfig("N1", "N2", "N3") }})
+		Cfg: func() *Config { return baseConfig("N1", "N2") }})
+
+	// maps of messages that themselves hold lists and maps: the refresh/echo harnesses
+	// (three in-place copies) only solve with one entry per map
+	add(&Program{Name: "P-nest-map", Quick: true, Bounds: map[string][2]int{"refresh": {2, 1}, "echo": {2, 1}, "from": {2, 1}},
+		File: func() *FileSpec {
+			n3 := msg("N3", nil, mapfld("NM", mfld("v", "Inner").nonnull()), mapfld("NMP", mfld("v", "Inner")), mapfld("lower_map", fld("v", TString)))
+			return &FileSpec{Name: "p.proto", Msgs: []*M{leafMsg(), innerMsg(), n3}}
+		},
+		Cfg: func() *Config { return baseConfig("N3") }})
 
 	add(&Program{Name: "P-oneof", Quick: true,
 		File: func() *FileSpec {
